@@ -1111,6 +1111,65 @@ def desugar_suppress(tree, notes, mname):
     return changed
 
 
+def desugar_match(tree, notes, mname):
+    """`match x: case C(): A / case D() | E(): B / case _: Z`  is  `if isinstance(x, C): A / elif isinstance(x, (D, E)): B / else: Z`
+    when the subject is a name and every pattern is a class pattern without sub-patterns (or an alternative of such, a constant,
+    None / True / False, or the wildcard): written as the if-chain, so that every analysis of branches sees it"""
+    changed = False
+
+    def test_of(pat, subj):
+        if isinstance(pat, ast.MatchClass) and not pat.patterns and not pat.kwd_attrs:
+            return ast.Call(func=ast.Name(id="isinstance", ctx=ast.Load()), args=[ast.Name(id=subj, ctx=ast.Load()), pat.cls], keywords=[])
+        if isinstance(pat, ast.MatchOr):
+            parts = [test_of(p, subj) for p in pat.patterns]
+            if any(p is None for p in parts):
+                return None
+            if all(isinstance(p, ast.Call) and getattr(p.func, "id", None) == "isinstance" for p in parts):
+                return ast.Call(func=ast.Name(id="isinstance", ctx=ast.Load()), args=[ast.Name(id=subj, ctx=ast.Load()), ast.Tuple(elts=[p.args[1] for p in parts], ctx=ast.Load())], keywords=[])
+            return ast.BoolOp(op=ast.Or(), values=parts)
+        if isinstance(pat, ast.MatchSingleton):
+            return ast.Compare(left=ast.Name(id=subj, ctx=ast.Load()), ops=[ast.Is()], comparators=[ast.Constant(value=pat.value)])
+        if isinstance(pat, ast.MatchValue) and isinstance(pat.value, ast.Constant):
+            return ast.Compare(left=ast.Name(id=subj, ctx=ast.Load()), ops=[ast.Eq()], comparators=[pat.value])
+        return None
+
+    class T(ast.NodeTransformer):
+        def visit_Match(self, node):
+            nonlocal changed
+            self.generic_visit(node)
+            if not isinstance(node.subject, ast.Name):
+                return node
+            subj = node.subject.id
+            arms = []
+            default = None
+            for i, case in enumerate(node.cases):
+                if case.guard is not None:
+                    return node
+                pat = case.pattern
+                if isinstance(pat, ast.MatchAs) and pat.pattern is None and pat.name is None:
+                    if i != len(node.cases) - 1:
+                        return node
+                    default = case.body
+                    continue
+                t = test_of(pat, subj)
+                if t is None:
+                    return node
+                arms.append((t, case.body))
+            if not arms:
+                return node
+            orelse = default or []
+            for t, body in reversed(arms):
+                new = ast.If(test=t, body=body, orelse=orelse)
+                orelse = [new]
+            ast.copy_location(new, node)
+            ast.fix_missing_locations(new)
+            changed = True
+            notes.append(f"{mname}: `match {subj}` over class patterns read as an isinstance chain")
+            return new
+    T().visit(tree)
+    return changed
+
+
 def prenormalise(trees):
     """trees: {module name: ast.Module}; rewrites in place -> (set of changed module names, notes)"""
     ref = load_reference()
@@ -1120,6 +1179,8 @@ def prenormalise(trees):
     changed = set()
     for mname, tree in trees.items():
         if desugar_suppress(tree, notes, mname):
+            changed.add(mname)
+        if desugar_match(tree, notes, mname):
             changed.add(mname)
     for mname, old, new in detect_renames(trees, ref):
         table = function_table(trees[mname])
